@@ -564,12 +564,21 @@ impl DrawState {
                 term.write_line("")?;
             }
 
+            // A zero-width first line prints nothing, so it would not consume the pending line
+            // wrap left behind by the previous draw's right-edge filler and would share a row
+            // with whatever was printed last. Print one of its (blank) cells up front.
+            let pad = usize::from(idx == 0 && line.console_width() == 0);
+            if pad > 0 {
+                term.write_str(" ")?;
+            }
+
             term.write_str(line.as_ref())?;
 
             if idx + 1 == self.lines.len() {
                 // For the last line of the output, keep the cursor on the right terminal
                 // side so that next user writes/prints will happen on the next line
-                let last_line_filler = line_height.as_usize() * term_width - line.console_width();
+                let last_line_filler =
+                    line_height.as_usize() * term_width - line.console_width() - pad;
                 term.write_str(&" ".repeat(last_line_filler))?;
             }
         }
